@@ -148,18 +148,31 @@ class Check:
             if not built:
                 self.broken.append("coq build: " + (out.strip().splitlines()[-1][:200] if out.strip() else "failed"))
                 self.notes.append("coq make failed:\n" + out[-2000:])
-            src = os.path.join(COQ, "Props", self.pid + ".v")
-            text = open(src).read()
-            names = re.findall(r"^\s*Theorem\s+(\w+)", text, re.M)
+            import glob as _glob
+            subs = sorted(_glob.glob(os.path.join(COQ, "Props", self.pid + "_*.v")))
+            files = [os.path.join(COQ, "Props", self.pid + ".v")] + subs
+            if subs:
+                rc2, out2 = sh("timeout 3000 make -j16 %s 2>&1 | tail -40" % " ".join("Props/" + os.path.basename(f) + "o" for f in subs), cwd=COQ)
+                if rc2 != 0 or "Error" in out2:
+                    built = False
+                    self.broken.append("coq build: " + (out2.strip().splitlines()[-1][:200] if out2.strip() else "failed"))
+            names, closed, allout = [], 0, ""
+            for src in files:
+                base = os.path.basename(src)[:-2]
+                text = open(src).read()
+                ns = re.findall(r"^\s*Theorem\s+(\w+)", text, re.M)
+                names += ns
+                rc, out = sh("timeout 1200 coqc -Q . GM -o %s Props/%s.v" % (os.path.join(self.work, base + ".vo"), base), cwd=COQ)
+                allout += out
+                if rc != 0:
+                    self.broken.append("Props/%s.v does not compile: %s" % (base, out.strip()[-300:]))
+                    self.theorems, self.obligations, self.discharged, self.props_out = names, len(names), 0, allout
+                    return False
+                closed += out.count("Closed under the global context")
+            out = allout
             self.theorems = names
             self.obligations = len(names)
-            rc, out = sh("timeout 1200 coqc -Q . GM -o %s Props/%s.v" % (os.path.join(self.work, self.pid + ".vo"), self.pid), cwd=COQ)
             self.props_out = out
-            if rc != 0:
-                self.broken.append("Props/%s.v does not compile: %s" % (self.pid, out.strip()[-300:]))
-                self.discharged = 0
-                return False
-            closed = out.count("Closed under the global context")
             axioms = re.findall(r"^Axioms:\n((?:.+\n)+)", out, re.M)
             self.discharged = closed
             if axioms:
